@@ -51,6 +51,7 @@ void harness(void) {
 	VCOVER(maxChars < 1, "capacity below one");
 #endif
 
+	VCOVER_END;
 	ret = URI_FUNC(ToStringCharsRequired)(&u, &required);
 	VPOST("C05", ret == URI_SUCCESS && required == len, "ToStringCharsRequired returns exactly the length of the recomposed text");
 
